@@ -706,6 +706,17 @@ static void check_desc(FILE *o, const asn_TYPE_descriptor_t *td, int depth, int 
         }
         for(i = 0; i < s->tag2el_cxer_count; i++)
             if(s->tag2el_cxer[i].el_no >= td->elements_count) DERR("%s: tag2el_cxer out of range", td->name);
+        if(s->_mandatory_elements) {
+            /* the bitmap of mandatory members (network byte order words, most significant bit first) must say
+             * exactly what the member table says */
+            for(i = 0; i < td->elements_count; i++) {
+                const unsigned char *mb = (const unsigned char *)s->_mandatory_elements;
+                int must = (mb[i / 8] >> (7 - (i % 8))) & 1;
+                if(must != (td->elements[i].optional ? 0 : 1))
+                    DERR("%s: SET mandatory map bit %u is %d, member %s is %s", td->name, i, must, td->elements[i].name,
+                         td->elements[i].optional ? "optional" : "mandatory");
+            }
+        } else if(td->elements_count) DERR("%s: SET without mandatory map", td->name);
         break;
     }
     case K_CHOICE: case K_OPEN: {
